@@ -356,7 +356,29 @@ def check(case):
                 return ok("reshape-0d", False)
             return bad("reshape to () gave {}".format(common.describe(got)))
         m = check_layout(got, layout, ra, "reshape{} from {}".format(tuple(tgt), tuple(src.dims)))
-        return bad(m) if m else ok("reshape", True)
+        if m:
+            return bad(m)
+        # second step from the reached state: unflatten() undoes EVERY group of the reshaped array (two groups at once occur only here), and
+        # reshaping back to the original dimensions gives the original layout
+        if any(e[0] == "group" for e in layout):
+            gsnap = common.snap(got)
+            flat = [("plain", d) for e in layout for d in (e[1] if e[0] == "group" else [e[1]])]
+            back = call(got.unflatten)
+            if isinstance(back, Raised):
+                return bad("unflatten() after reshape{} raised {}".format(tuple(tgt), back), klass="unexpected-exception")
+            m = check_layout(back, [("new", e[1]) if e[1] == "new" else e for e in flat], ra, "unflatten() after reshape{}".format(tuple(tgt)))
+            if m:
+                return bad(m)
+            if "new" not in tgt and len(flat) == len(a.dims):
+                home = call(got.reshape, *a.dims)
+                if isinstance(home, Raised):
+                    return bad("reshape{} back to {} raised {}".format(tuple(tgt), tuple(a.dims), home), klass="unexpected-exception")
+                m = check_layout(home, [("plain", d) for d in a.dims], ra, "reshape{} and back to {}".format(tuple(tgt), tuple(a.dims)))
+                if m:
+                    return bad(m)
+            if common.snap(got) != gsnap:
+                return bad("unflatten / reshape modified the reshaped array they were applied to")
+        return ok("reshape", True)
     if op == "reduce":
         sub, f = case["sub"], case["f"]
         r1 = call(getattr(a, f), axis=tuple(sub))
